@@ -231,6 +231,17 @@ type State struct {
 	Junk      []string         `json:"junk"` // undecodable keys found under the node module's prefixes
 }
 
+// ethName: the symbolic name of a harness-made Ethereum account id (the same in every process).
+func ethName(id string) string {
+	for i := 1; i <= 6; i++ {
+		n := fmt.Sprintf("e%d", i)
+		if ethAccountId(n) == id {
+			return n
+		}
+	}
+	return id
+}
+
 var e18 = new(big.Int).Exp(big.NewInt(10), big.NewInt(18), nil)
 
 // decScaled returns d * 10^scale as an integer and whether that is exact.
@@ -346,6 +357,9 @@ func (c *Chain) Project() State {
 		for _, d := range c.Dids {
 			k = strings.ReplaceAll(k, d.Did, d.Name)
 		}
+		if strings.HasPrefix(k, "did:sid:") && len(k) > 72 {
+			k = c.Name(k[:72]) + k[72:] // did:sid:<64 hex> owner
+		}
 		s.Aliases = append(s.Aliases, PAlias{Key: k, Data: c.Name(m.Data)})
 	}
 	sort.SliceStable(s.Aliases, func(i, j int) bool { return dataRank(s.Aliases[i].Data) < dataRank(s.Aliases[j].Data) })
@@ -385,6 +399,8 @@ func (c *Chain) Project() State {
 		acc := d.AccountId
 		if strings.HasPrefix(acc, "cosmos:"+ChainID+":") {
 			acc = c.Name(strings.TrimPrefix(acc, "cosmos:"+ChainID+":"))
+		} else {
+			acc = ethName(acc)
 		}
 		s.Bindings = append(s.Bindings, PBinding{Acc: acc, Did: c.Name(d.Did)})
 	}
@@ -396,7 +412,7 @@ func (c *Chain) Project() State {
 		if strings.HasPrefix(id, "cosmos:"+ChainID+":") {
 			return c.Name(strings.TrimPrefix(id, "cosmos:"+ChainID+":"))
 		}
-		return id
+		return ethName(id)
 	}
 	s.AccLists, s.AccIds, s.AccAuths, s.Versions, s.Seeds = []PAccList{}, []PAccId{}, []string{}, []PVersions{}, []PAccList{}
 	for _, l := range a.DidKeeper.GetAllAccountList(ctx) {
